@@ -21,6 +21,7 @@ import csv
 import io
 import itertools
 import re
+from string import ascii_uppercase
 
 import mc
 from mc import pool
@@ -104,6 +105,7 @@ CELL_ALPHABET = [
     "-5 1 1 1",
 ]
 PAIR_ALPHABET = ["", "default", "0", "-1", "abc"]
+ODD_KEYS = ["{notes}", "{}", "{", "}", "{0}", "{0.x}", "%s", "%(a)s", "a{b}c", "\\N{x}", "{!r}", "{:>9999999999}"]
 TINY_CELLS = ["name", "level", "x", "", "0"]
 TINY_CHARS = ["a", ",", "\n", '"', "#", " "]
 
@@ -276,10 +278,25 @@ def fam_file(grid, _key):
             g = copy_grid(grid)
             g.insert(pos, ["unknown_row"] + ["1" if j == c else "" for j in range(1, nc)])
             out.append(("unknown row in column %d at %d" % (c, pos), render(g)))
+    # unknown rows whose key contains characters special to str.format / % / csv
+    for key in ODD_KEYS:
+        g = copy_grid(grid)
+        g.append([key] + ["1"] * (nc - 1))
+        out.append(("unknown row %r appended" % key, render(g)))
+        g = copy_grid(grid)
+        g.append([key, "1"])
+        out.append(("unknown row %r in column 1 appended" % key, render(g)))
     # column names
     for j in range(1, nc):
         for k in range(1, nc):
             if j != k:
+                # an explicit name equal to the default name of an unnamed column
+                g = copy_grid(grid)
+                while len(g[nr]) < nc:
+                    g[nr].append("")
+                g[nr][j] = "column_" + ascii_uppercase[k]
+                g[nr][k] = ""
+                out.append(("name c%d := default name of unnamed c%d" % (j, k), render(g)))
                 g = copy_grid(grid)
                 g[nr][j] = g[nr][k]
                 out.append(("name c%d := name c%d" % (j, k), render(g)))
@@ -319,7 +336,7 @@ def fam_file(grid, _key):
 
 def size_file(grid, _key):
     nc = n_cols(grid)
-    return 7 + 3 * (1 + (nc - 1)) + (nc - 1) * (nc - 2) * 2 + (nc - 1) * 6
+    return 7 + 3 * (1 + (nc - 1)) + 2 * len(ODD_KEYS) + (nc - 1) * (nc - 2) * 3 + (nc - 1) * 6
 
 
 def fam_pair(grid, key):
